@@ -86,7 +86,8 @@ fn judge<T: LFloat>(cx: &mut Ctx, case: &Case) {
                     if ok {
                         if !oracle::is_correctly_rounded(k, &x, abs) {
                             bump(&mut cx.counts, "lossy-off-by-one");
-                            let exact_class = matches!(x, Exact::Zero) || abs == k.inf_bits() || abs == 0;
+                            // results that are zero / infinity when correctly rounded must be unchanged
+                            let exact_class = oracle::clearly_zero(k, &x) || oracle::clearly_inf(k, &x);
                             if exact_class {
                                 // zero / infinity must be unchanged
                                 Some("lossy-zero-inf")
